@@ -41,6 +41,7 @@ class World:
         self.uidx = list(range(nplain, nplain + nuni))
         self.ls = []
         self.bulk_members = []   # vertices created by "bulk_u": members of universes but not part of the pool
+        self.restrictive = set()  # pool indices of universes that were given restrictive (non-default) laws
 
     @classmethod
     def from_pool(cls, vs, ls, uidx=()):
@@ -49,7 +50,7 @@ class World:
 
         w = cls.__new__(cls)
         w.classes = classes
-        w.vs, w.ls, w.uidx, w.bulk_members = list(vs), list(ls), list(uidx), []
+        w.vs, w.ls, w.uidx, w.bulk_members, w.restrictive = list(vs), list(ls), list(uidx), [], set()
         return w
 
     # ------------------------------------------------------------ resolution
@@ -64,10 +65,21 @@ class World:
         if name == "edge_bad":
             # ill-typed end: k selects the bad value and its position
             return ("edge_bad", (k // 2) % 6, i % nv, k % 2, j % 4)
+        if name == "glink":
+            # a generic n-ended Link (the documented _force_creation escape hatch) over 0..3 vertices
+            return ("glink", [x % nv for x in (i, j, k)][: k % 4])
+        if name == "edge_attr":
+            # an edge constructed with a user attribute NAMED LIKE a read-only accessor
+            return ("edge_attr", k % 6, i % nv, j % nv, (k // 6) % 3)
+        if name == "newv_attr":
+            if nv >= 7:
+                return None
+            return ("newv_attr", k % 3)
         if name in ("v1", "v2"):
             if not nl:
                 return None
-            return (name, i % nl, self.end(j))
+            # k % 4 == 3: the documented item spelling  lnk["v1"] = x  instead of  lnk.v1 = x
+            return (name, i % nl, self.end(j), k % 4 == 3)
         if name == "link":
             # k: bit0 dontdup, then which function
             fn = ("link_directed", "link_undirected", "link_from_to")[(k >> 1) % 3]
@@ -123,7 +135,8 @@ class World:
         if name == "lawsnone":
             if not self.uidx:
                 return None
-            return ("lawsnone", self.uidx[i % len(self.uidx)], k % 2)
+            # k % 4: 0 -> None, 1 -> default laws, 2 / 3 -> restrictive laws
+            return ("lawsnone", self.uidx[i % len(self.uidx)], k % 4)
         if name == "newu2":
             if nv >= 6:
                 return None
@@ -152,11 +165,25 @@ class World:
             good = self.vs[r[2]]
             args = (bad, good) if r[3] == 0 else (good, bad)
             return C.LINK_CLASSES[r[1]](*args)
-        if name == "v1":
-            self.ls[r[1]].v1 = self.v(r[2])
-            return None
-        if name == "v2":
-            self.ls[r[1]].v2 = self.v(r[2])
+        if name == "glink":
+            from edgegraph.structure import Link
+
+            l = Link(vertices=[self.vs[x] for x in r[1]], _force_creation=True)
+            self.ls.append(l)
+            return l
+        if name == "edge_attr":
+            l = C.LINK_CLASSES[r[1]](self.vs[r[2]], self.vs[r[3]], attributes={("vertices", "universes", "uid")[r[4]]: ()})
+            self.ls.append(l)
+            return l
+        if name == "newv_attr":
+            nvx = Vertex(attributes={("links", "universes", "uid")[r[1]]: (), "i": len(self.vs)})
+            self.vs.append(nvx)
+            return nvx
+        if name in ("v1", "v2"):
+            if len(r) > 3 and r[3]:
+                self.ls[r[1]][name] = self.v(r[2])      # BaseObject item access == attribute access
+            else:
+                setattr(self.ls[r[1]], name, self.v(r[2]))
             return None
         if name == "link":
             _, fn, a, b, dd, ci = r
@@ -240,7 +267,13 @@ class World:
             from edgegraph.structure.universe import UniverseLaws
 
             # the laws of a universe are taken away (or given back): membership calls must not care
-            self.vs[r[1]].laws = None if r[2] == 0 else UniverseLaws()
+            if r[2] >= 2:
+                self.vs[r[1]].laws = UniverseLaws(cycles=False, multipath=False, mixed_links=False, multiverse=False,
+                                                  **({"edge_whitelist": {}} if r[2] == 3 else {}))
+                self.restrictive.add(r[1])
+            else:
+                self.vs[r[1]].laws = None if r[2] == 0 else UniverseLaws()
+                self.restrictive.discard(r[1])
             return None
         if name == "newu2":
             shared = [self.vs[x] for x in r[1]]          # ONE duplicate-free list object given to two constructors
